@@ -305,6 +305,11 @@ def coq_crosscheck(fam, cases, model_out, tag, timeout=900):
     def zl(l):
         return "[" + "; ".join("(%d)" % t for t in l) + "]"
 
+    # very large cases are left out of the in-Coq re-evaluation (a list literal of several hundred
+    # kilobytes exhausts the parser's stack); the smallest case is always kept
+    size = lambda c: sum(len(l) for l in c[1]) + sum(len(l) for l in model_out.get(str(c[0]), []))
+    small = [c for c in cases if size(c) <= 30000]
+    cases = small or sorted(cases, key=size)[:1]
     with open(path, "w") as f:
         f.write("From Coq Require Import ZArith List.\nImport ListNotations.\n"
                 "From KD Require Import Model.Driver.\nOpen Scope Z_scope.\n")
@@ -312,7 +317,7 @@ def coq_crosscheck(fam, cases, model_out, tag, timeout=900):
             exp = model_out.get(str(cid), [])
             f.write("Goal Driver.run %d [%s] = [%s].\nProof. vm_compute. reflexivity. Qed.\n"
                     % (fam, "; ".join(zl(l) for l in lines), "; ".join(zl(l) for l in exp)))
-    rc, out = sh("timeout %d coqc -noglob -Q %s KD %s" % (timeout, COQ, path), cwd=WORK,
+    rc, out = sh("ulimit -s unlimited 2>/dev/null; timeout %d coqc -noglob -Q %s KD %s" % (timeout, COQ, path), cwd=WORK,
                  timeout=timeout + 30)
     return rc == 0, out[-2000:]
 
